@@ -479,6 +479,8 @@ def rule_stable_sort(chk, prog):
                 la, lb = unext(a), unext(b)
                 if la.ty != "i64" or lb.ty != "i64" or a.ty != "i64":
                     chk.violation("K14-sort", inst, i, "priorities are compared after narrowing to %s" % a.ty)
+                elif i.pred in ("eq", "ne"):
+                    chk.ok("K14-sort", inst, i, "equality test of two priorities (no order decision)")
                 elif i.pred in ("slt", "sgt"):
                     chk.ok("K14-sort", inst, i, "full 64-bit signed comparison; strict, so an equal priority never displaces an earlier file")
                 elif i.pred in ("sle", "sge"):
@@ -488,7 +490,7 @@ def rule_stable_sort(chk, prog):
                     chk.violation("K14-sort", inst, i, "priorities compared with %s: not the signed order of the sort file" % i.pred)
     for g in shaped_comparators(prog, units_prefix=("bin/gensquashfs/src/sort_by_file.c",)):
         n += 1
-        check_comparator(chk, prog, g, 0, 1, "K14-sort", want_total=False)
+        check_comparator(chk, prog, g, 0, 1, "K14-sort", want_total=False, lookup=False)
     if n == 0:
         chk.broke("no comparison of file priorities found in sort_by_file.c")
 
